@@ -112,12 +112,59 @@ Proof.
   assert (fb r F a t <= fb r F a t * r) by nia. lia.
 Qed.
 
-(** The Go function computes [fb] whenever its products fit into 64 bits. *)
+(** The Go function computes [fb] for all inputs whose result fits into 64 bits. *)
+Lemma calc_is_fb_fits t :
+  0 <= t -> fb r F a t < two64 ->
+  calcAudioTimeFromRef t r F a = Ok (fb r F a t).
+Proof.
+  intros Ht Hfit. unfold calcAudioTimeFromRef.
+  replace (r =? 0) with false by lia. replace (F =? 0) with false by lia.
+  assert (HX : 0 <= t * a) by nia.
+  pose proof (fb_ge t) as Hge. pose proof (fb_nonneg t Ht) as Hnn.
+  set (X := t * a) in *.
+  pose proof (Z.div_mod X r ltac:(lia)) as E1. pose proof (Z.mod_pos_bound X r Hr) as B1.
+  assert (Hq0 : 0 <= X / r) by (apply Z.div_pos; lia).
+  assert (Hqle : X / r <= fb r F a t) by (apply Z.div_le_upper_bound; nia).
+  rewrite (u64_small (X / r)) by lia.
+  rewrite Z.div_div by lia.
+  pose proof (Z.div_mod X (r * F) ltac:(nia)) as E. pose proof (Z.mod_pos_bound X (r * F) rF_pos) as B.
+  unfold fb, fidx in *. fold X in Hfit, Hge, Hnn, Hqle |- *.
+  rewrite (cdiv_floor X (r * F) rF_pos) in *.
+  set (k := X / (r * F)) in *. set (m := X mod (r * F)) in *.
+  set (q0 := X / r) in *. set (rem := X mod r) in *.
+  assert (Hk : 0 <= k) by (apply Z.div_pos; [lia|apply rF_pos]).
+  assert (Hcond : ((k * F <? q0) || (rem >? 0)) = negb (m =? 0)).
+  { destruct (m =? 0) eqn:M0; cbn [negb].
+    - assert (Hm : m = 0) by lia.
+      set (d := k * F - q0) in *. assert (Hd0 : 0 <= d) by (unfold d; lia).
+      assert (Hrd : r * d = rem) by (unfold d; rewrite Z.mul_sub_distr_l; replace (r * (k * F)) with (r * F * k) by ring; lia).
+      assert (d < 1) by nia. assert (d = 0) by lia. assert (rem = 0) by nia. unfold d in *. lia.
+    - assert (Hm : m <> 0) by lia.
+      destruct (Z_le_gt_dec q0 (k * F)) as [Hle|]; [|lia].
+      assert (rem > 0).
+      { assert (Hrd : r * (k * F - q0) + m = rem) by (rewrite Z.mul_sub_distr_l; replace (r * (k * F)) with (r * F * k) by ring; lia).
+        assert (0 <= r * (k * F - q0)) by nia. lia. }
+      lia. }
+  rewrite Hcond. destruct (m =? 0); cbn [negb].
+  - reflexivity.
+  - rewrite u64_small by nia. f_equal. ring.
+Qed.
+
+(** in particular whenever the products of the old code fit into 64 bits *)
 Lemma calc_is_fb t :
   0 <= t -> t * a + F * r < two64 ->
   calcAudioTimeFromRef t r F a = Ok (fb r F a t).
 Proof.
-  intros Ht Hrange. unfold calcAudioTimeFromRef.
+  intros Ht Hrange. apply calc_is_fb_fits; [assumption|].
+  pose proof (fb_le_bound t Ht). lia.
+Qed.
+
+(** the function before the 128-bit fix computed [fb] only while its products fit into 64 bits *)
+Lemma calc_before_fix_is_fb t :
+  0 <= t -> t * a + F * r < two64 ->
+  calcAudioTimeFromRef_before_fix t r F a = Ok (fb r F a t).
+Proof.
+  intros Ht Hrange. unfold calcAudioTimeFromRef_before_fix.
   replace (r =? 0) with false by lia. replace (F =? 0) with false by lia.
   assert (HX : 0 <= t * a) by nia.
   assert (HFr : 0 < F * r) by nia.
@@ -1131,7 +1178,7 @@ Qed.
 
 (** * C03_boundary, collected *)
 Lemma boundary_all r F a t :
-  0 < r -> 0 < F -> 0 < a -> 0 <= t -> t * a + F * r < two64 ->
+  0 < r -> 0 < F -> 0 < a -> 0 <= t -> fb r F a t < two64 ->
   calcAudioTimeFromRef t r F a = Ok (fb r F a t)
   /\ fb r F a t mod F = 0
   /\ t * a <= fb r F a t * r
@@ -1139,13 +1186,28 @@ Lemma boundary_all r F a t :
   /\ (forall m, m mod F = 0 -> t * a <= m * r -> fb r F a t <= m)
   /\ (forall t', t <= t' -> fb r F a t <= fb r F a t').
 Proof.
-  intros Hr HF Ha Ht Hrange. repeat split.
-  - exact (calc_is_fb r F a Hr HF Ha t Ht Hrange).
+  intros Hr HF Ha Ht Hfit. repeat split.
+  - exact (calc_is_fb_fits r F a Hr HF Ha t Ht Hfit).
   - exact (fb_mod r F a HF t).
   - exact (fb_ge r F a Hr HF t).
   - exact (fb_lt r F a Hr HF t).
   - exact (fb_least r F a Hr HF t).
   - exact (fb_mono r F a Hr HF Ha t).
+Qed.
+
+(** C03_boundary_before_fix: the function as it was (products in uint64) computed [fb] only while
+    refTime*audioTimescale + frameDur*refTimescale < 2^64; beyond that it is wrong: 10 MHz reference
+    timescale, 1 700 000 098 s after the start (generated asset g10mhz / catalogue layout g_10mhz_tl) *)
+Lemma boundary_before_fix_witness :
+  (forall r F a t, 0 < r -> 0 < F -> 0 < a -> 0 <= t -> t * a + F * r < two64 ->
+     calcAudioTimeFromRef_before_fix t r F a = Ok (fb r F a t)) /\
+  two64 <= 17000000980000000 * 48000 /\
+  calcAudioTimeFromRef_before_fix 17000000980000000 10000000 1024 48000 = Ok 434330780672 /\
+  fb 10000000 1024 48000 17000000980000000 = 81600004704256 /\
+  calcAudioTimeFromRef 17000000980000000 10000000 1024 48000 = Ok 81600004704256.
+Proof.
+  split; [intros; now apply calc_before_fix_is_fb|].
+  repeat split; vm_compute; congruence.
 Qed.
 
 (** * The frame duration used for the MPD *)
